@@ -4,6 +4,7 @@
 -/
 import LispModel.ConcEnv
 import LispModel.Generated.EnvSync
+import LispModel.Proofs.ConcEnvGlobals
 namespace LispModel.Tie.EnvSync
 open LispModel.ConcEnv
 
@@ -22,5 +23,14 @@ theorem nt_helpers_internal : Generated.EnvSync.ntExternalCalls = [] := by decid
 theorem global_assignments_guarded :
     ∀ a ∈ Generated.EnvSync.globalAssignments,
       a.2.any isStepperGuard = true ∧ (a.1 = "skip" ∨ a.1 = "outing1" ∨ a.1 = "outing2") := by decide
+
+/-- hence, in the source as it is: with no Stepper installed and the flags at their zero values, no
+    sequence of visits to the assignment sites of mal.go changes `skip`, `outing1` or `outing2` -/
+theorem stepper_globals_untouched_in_source (G : Globals)
+    (h0 : G.stepper = false) (h1 : G.outing1 = false) (h2 : G.outing2 = false)
+    (visits : List ((String × List String) × Bool × (String → Bool)))
+    (hv : ∀ x ∈ visits, x.1 ∈ Generated.EnvSync.globalAssignments) :
+    visits.foldl (fun G x => fire G x.1 x.2.1 x.2.2) G = G :=
+  Proofs.ConcEnv.globals_untouched _ (fun a ha => (global_assignments_guarded a ha).1) G h0 h1 h2 visits hv
 
 end LispModel.Tie.EnvSync
